@@ -18,6 +18,18 @@
 (* lattice units, and snaps it to the nearest small-denominator rational when    *)
 (* (and only when) it is within rounding of it ("rat"); everything else is       *)
 (* "off" (or "nan"; "sent" = the -9999 sentinel, used by BinStats.tla).          *)
+(*                                                                               *)
+(* Every case of StatsMC.tla / StatsTrace.tla also carries `rep` (the            *)
+(* REPRESENTATION in which each array argument is handed to the code: element    *)
+(* type, byte order, python list, strided / reversed / read-only view) and `lat` *)
+(* (the LATTICE value = (x + OFF) * unit, |OFF| up to 2^40).  Neither changes an  *)
+(* abstract value, so NO operator of this module reads them: every expectation   *)
+(* is representation- and offset-independent (mean-type outputs are shifted back *)
+(* exactly by the harness, deviation-type outputs are shift invariant) - that is *)
+(* the specification of these two dimensions.  What does depend on the lattice   *)
+(* is how sharply a float determines a rational: on large-offset lattices and    *)
+(* for float32 data an observation may be an INTERVAL (SObsEqI), and the         *)
+(* clipping test is specified up to the tolerance c.tol (SClipKeepT).            *)
 (* All operators are prefixed with S (Hist.tla is extended next to this module). *)
 EXTENDS VU
 
@@ -98,7 +110,7 @@ SMedGoesOn(x, w, st) == 2 * st.sum > SSumW(w, DOMAIN x)
 SMedStep(x, w, st) == [k |-> st.k + 1, sum |-> st.sum - w[SSortPos(x, DOMAIN x)[st.k + 1]]]
 
 \* ---- sigma clipping -------------------------------------------------------------------
-\* c = [x, w : Seq(Int), hasw : BOOLEAN, nsn, nsd : Nat (nsig = nsn/nsd), niter : Nat]
+\* c = [x, w : Seq(Int), hasw : BOOLEAN, nsn, nsd : Nat (nsig = nsn/nsd), niter : Nat, tol : <<p, q>> (see SClipKeepT)]
 \* (w = all ones when hasw is FALSE).  Over the current set S:
 \*    |x_i - m| < nsig * s   <=>   (W x_i - A)^2 nsd^2 < nsn^2 (W B - A^2)
 \* A point exactly on the boundary (equality; includes every point when the deviation
